@@ -175,12 +175,13 @@ func (st *SymbolTable) Resolve(name string) (symbol *Symbol, ok bool) {
 
 	if !ok && st.parent == nil && !st.isBuiltinDisabled(name) {
 		if idx, exists := BuiltinsMap[name]; exists {
+			// Builtin symbols are not stored in the table, a builtin name is
+			// not a declaration and it can be declared later in this scope.
 			symbol = &Symbol{
 				Name:  name,
 				Index: int(idx),
 				Scope: ScopeBuiltin,
 			}
-			st.store[name] = symbol
 			return symbol, true
 		}
 	}
